@@ -373,7 +373,7 @@ theorem readKey_ttl {s s' : State} {k : Nat} {o o' : Oracle} {v : Option Nat}
       · rename_i s2 o2 hp
         simp only [Except.ok.injEq, Prod.mk.injEq] at hr
         obtain ⟨rfl, _, _⟩ := hr
-        exact poolAdd_ttl hp
+        exact (poolAdd_ttl hp).trans rfl
       · cases hr
     · simp only [Except.ok.injEq, Prod.mk.injEq] at hr
       obtain ⟨rfl, _, _⟩ := hr
